@@ -346,7 +346,7 @@ def _mutate_partial(ev):
 C13 = dict(
     family="partial", trace_module="Trace_Partial.tla",
     models=[dict(name="mc_partial", module="MC_Partial.tla", cfg=dict(quick="MC_Partial_quick.cfg", thorough="MC_Partial_thorough.cfg"),
-                 cases=_partial_case, limit=dict(quick=2500, thorough=None))],
+                 cases=_partial_case, limit=dict(quick=1600, thorough=None))],
     nontrivial=lambda ev: ev.get("ev") == "Partial",
     key=lambda ev: [ev.get("pols"), ev.get("req")],
     mutate=_mutate_partial, chunk=250,
@@ -487,3 +487,85 @@ C17 = dict(
 )
 FAMILIES["C16"] = C16
 FAMILIES["C17"] = C17
+
+
+# ----------------------------------------------------------------- C19
+def _ffi_case(world, c, i):
+    hist = [["preparsePs", n, k] for n, k in sorted(c["ps"].items())] if isinstance(c["ps"], dict) else []
+    hist += [["preparseSchema", n, j] for n, j in sorted(c["sc"].items())] if isinstance(c["sc"], dict) else []
+    op = c["op"]
+    hist.append(op)
+    if op[0] == "stateful":
+        ps = c["ps"] if isinstance(c["ps"], dict) else {}
+        sc = c["sc"] if isinstance(c["sc"], dict) else {}
+        if op[1] in ps and (op[2] == "" or op[2] in sc):
+            hist.append(["stateless", ps[op[1]], sc[op[2]] if op[2] else 0, op[3], op[4]])
+    return dict(id=i, hist=hist)
+
+
+def _ffi_setup(world):
+    return dict(setup=world)
+
+
+def _ffi_histories(fam, tier, wd, seed):
+    import random, os, vlib
+    world = fam.get("_world")
+    if world is None:
+        return []
+    rnd = random.Random(seed * 104729 + 5)
+    n = 250 if tier == "quick" else 6000
+    names = ["a", "b", "c", "d"]
+    nps, nsc, nreq = len(world["polSources"]), len(world["schemaSources"]), len(world["reqs"])
+    cases = [dict(setup=world)]
+    for i in range(n):
+        hist = []
+        for _ in range(rnd.randint(6, 30)):
+            k = rnd.random()
+            if k < 0.25:
+                hist.append(["preparsePs", rnd.choice(names), rnd.randint(1, nps)])
+            elif k < 0.45:
+                hist.append(["preparseSchema", rnd.choice(names), rnd.randint(1, nsc)])
+            elif k < 0.9:
+                hist.append(["stateful", rnd.choice(names), rnd.choice(names + ["", ""]), rnd.random() < 0.5, rnd.randint(1, nreq)])
+            else:
+                hist.append(["stateless", rnd.randint(1, nps), rnd.randint(0, nsc), rnd.random() < 0.5, rnd.randint(1, nreq)])
+        cases.append(dict(id="h%d" % i, hist=hist))
+    cpath = os.path.join(wd, "hist.cases.ndjson")
+    tpath = os.path.join(wd, "hist.trace.ndjson")
+    vlib.write_ndjson(cpath, cases)
+    vlib.conform("replay", "ffi", cpath, tpath)
+    return [(tpath, "T:histories", "Trace_Ffi.tla")]
+
+
+def _mutate_ffi(ev):
+    if ev.get("ev") != "FfiHist":
+        return None
+    ev = json.loads(json.dumps(ev))
+    for s in ev["steps"]:
+        if "answer" in s:
+            s["answer"] = ["fail"] if s["answer"][0] == "ok" else ["ok", {"decision": "Allow", "reasons": [], "errors": []}]
+            return ev
+        if "ok" in s:
+            s["ok"] = not s["ok"]
+            return ev
+    return None
+
+
+C19 = dict(
+    family="ffi", trace_module="Trace_Ffi.tla",
+    models=[dict(name="mc_ffi", module="MC_Ffi.tla", cfg=dict(quick="MC_Ffi.cfg", thorough="MC_Ffi.cfg"),
+                 cases=_ffi_case, setup=_ffi_setup, limit=dict(quick=6000, thorough=None))],
+    extra_traces=_ffi_histories,
+    nontrivial=lambda ev: ev.get("ev") == "FfiHist",
+    key=lambda ev: [s.get("op") for s in ev.get("steps", [])],
+    mutate=_mutate_ffi, chunk=1500,
+    rule="G: every (cache state, operation) pair of Ffi.tla over 2 names, 6 policy-set sources (concatenated text, id->text map, id->JSON map, templates+links, two "
+         "unparsable ones), 4 schema sources (JSON, Cedar syntax, a smaller schema, an unparsable one), 5 requests (conformant, wrong principal type, wrong context, ...), "
+         "validateRequest on/off, schema named or not: 32000 pairs, each run as a short history with fresh names (quick: seeded sample of 6000); for stateful calls whose "
+         "names resolve the equivalent stateless call and the Rust API are run too. T: random histories of 6-30 calls over 4 names with re-registration. TLC folds the "
+         "cache machine over each history and re-derives every answer (decision, reasons, erroring ids, or failure).",
+    assumptions=["validate_json / check_parse / convert / format entry points and the CLI are not driven yet",
+                 "error messages are not compared, only success/failure and the response"],
+)
+FAMILIES["C19"] = C19
+import props_c05, props_c12; FAMILIES["C05"] = props_c05.C05; FAMILIES["C12"] = props_c12.C12
